@@ -3187,6 +3187,18 @@ class Interp:
                     tot = tot + sg.elem
                 return tot
             return Unknown("sum of an unmodelled sequence")
+        if name == "reversed" and len(args) == 1 and not kwargs:
+            xs = args[0]
+            if isinstance(xs, GenV):
+                return Unknown("reversed() of a generator")          # (a TypeError in Python; not followed)
+            if isinstance(xs, TupleV):
+                return GenV(None, items=ListV([Seg(x) for x in reversed(xs.items)]))
+            if isinstance(xs, RangeV):
+                xs = self.builtin("list", [xs], {}, state, node)
+            its = self.plain_items(xs) if isinstance(xs, ListV) and not xs.unordered else None
+            if its is None:
+                return Unknown("reversed() of a sequence that is not known element by element")
+            return GenV(None, items=ListV([Seg(x) for x in reversed(its)]))
         if name == "iter" and len(args) == 1 and not kwargs:
             a0 = args[0]
             if isinstance(a0, GenV):
